@@ -46,6 +46,11 @@ CHECKS = {
          "Differential run of the real code against itself over generated size-static instruction sets/programs including literal-versus-expression overlaps; the reference matcher is used only to decide which operands may be re-cased. Exploration.",
          "Blanks are only added, never removed, and never inside a word (documented behaviour / listed finding of C08).",
          "6/C07"),
+ "C12": ("exploration",
+         "model-based property testing: generated multi-bank / multi-file programs, listings parsed by an independent parser per format and compared with the reference layout, the output bits and the generator's own record of where each item was written in the source",
+         "Random search over programs x listing parameters (annotated base 2..128 x group 1..9, tcgame, addrspan, symbols, mesen-mlb); every row's position, address, digits and source text/location and every symbol value are decided against the reference. Exploration of a sampled space.",
+         "Expected rows come from the reference assembler (kept equal to the assembler's spans by C01/C06); Mesen offsets asserted only for 8-bit banks at file offset >= 0x10.",
+         "6/C12"),
  "C08": ("exploration",
          "metamorphic/differential property testing: the same job under the four optimisation-switch combinations x five iteration budgets must agree on success, bits and symbols",
          "Differential run of the real code against itself over generated (size-static and cascading) programs, the whole test corpus and token-mutated corpus programs. No model is trusted; exploration of a sampled program space.",
@@ -90,7 +95,7 @@ def main():
             na.append({"property_id": i, "reason": NOT_BUILT_REASON})
     m = {
         "version": 1,
-        "setup_cmd": "cd /verif/harness && CARGO_NET_OFFLINE=true cargo build --release --offline",
+        "setup_cmd": "cd /verif/harness && CARGO_NET_OFFLINE=true cargo build --release --offline && ./target/release/casverif build-sut",
         "hooks": {
             "guard": "--cfg hlorenzi_customasm_verif",
             "enable": "RUSTFLAGS=--cfg hlorenzi_customasm_verif via /verif/harness/.cargo/config.toml; the harness links /repo as a path dependency, so every check recompiles customasm from the working tree",
